@@ -82,7 +82,7 @@ var usages = []uint32{22, 23, 24, 25}
 func Run(c *engine.Ctx) {
 	c.Assume = append(c.Assume,
 		"token layout transcribed from RFC 4121 4.2.6.1/4.2.6.2; checksums from ref/rcrypto (validated against RFC vectors in C07)",
-		"not judged: bits of the Wrap token's RRC field (RFC 4121 excludes RRC from the checksum and the property does not list it); payload and key bytes seeded")
+		"not judged: flips of the Wrap token's RRC bits on a finished token and the rotation of the data for a non-zero RRC (RFC 4121 excludes RRC from the checksum and the property does not list it); judged: the checksum of a token built with RRC in {1,12,28,256,65535} is the one over the header with EC and RRC zeroed; payload and key bytes seeded")
 	if _, err := rcrypto.SelfTest(); err != nil {
 		engine.Fatal("%v", err)
 	}
@@ -166,6 +166,40 @@ func Run(c *engine.Ctx) {
 						if err := wwrong.Unmarshal(wb, !fromAcc); err == nil {
 							c.Violate("decode", "Wrap:accepts-wrong-direction", nil, cs)
 							continue
+						}
+						// a token built with a non-zero RRC: the checksum is still the one over the header with EC and RRC
+						// zeroed (RFC 4121 4.2.4), and the RRC travels in header bytes 6..7 (rotation of the data is not judged)
+						if l <= 40 || l%50 == 0 {
+							bad := false
+							for _, rrc := range []uint16{1, 12, 28, 0x0100, 0xffff} {
+								evals++
+								wr := gssapi.WrapToken{Flags: flags, EC: uint16(p.CksumLen), RRC: rrc, SndSeqNum: seq, Payload: append([]byte{}, payload...)}
+								var rb []byte
+								var rerr error
+								if pn := safe(func() {
+									if rerr = wr.SetCheckSum(gk, u); rerr == nil {
+										rb, rerr = wr.Marshal()
+									}
+								}); pn != "" || rerr != nil {
+									c.Violate("build", fmt.Sprintf("Wrap:et%d:build-error:rrc", et), map[string]interface{}{"panic": pn, "err": fmt.Sprint(rerr), "rrc": rrc}, cs)
+									bad = true
+									break
+								}
+								want := refWrap(et, key, u, flags, rrc, seq, payload)
+								if !bytes.Equal(wr.CheckSum, want[16+l:]) {
+									c.Violate("build", fmt.Sprintf("Wrap:et%d:differs-from-rfc:checksum-covers-rrc", et), map[string]interface{}{"rrc": rrc, "gokrb5": hex.EncodeToString(wr.CheckSum), "reference": hex.EncodeToString(want[16+l:])}, cs)
+									bad = true
+									break
+								}
+								if len(rb) < 8 || binary.BigEndian.Uint16(rb[6:8]) != rrc || !bytes.Equal(rb[:6], want[:6]) || !bytes.Equal(rb[8:16], want[8:16]) {
+									c.Violate("build", fmt.Sprintf("Wrap:et%d:differs-from-rfc:header-with-rrc", et), map[string]interface{}{"rrc": rrc, "gokrb5_header": hex.EncodeToString(rb[:min(16, len(rb))])}, cs)
+									bad = true
+									break
+								}
+							}
+							if bad {
+								continue
+							}
 						}
 						c.Distinct(fmt.Sprintf("%d/%d/%d/%d/%d", et, l, flags, seq, u))
 					}
